@@ -338,4 +338,211 @@ theorem alignL_spec {cap : Nat} {num den : BF} {nd2 : BF × BF} (hN : Normalized
       injection h with h; subst h
       exact ⟨0, 0, 0, hN, by simp, by simp, by simp, fun h => absurd rfl h, by omega⟩
 
+/-! ## `byte_comp` -/
+
+/-- the table facts `byte_comp` uses for a radix without a digit limit -/
+structure ByteTables (E : Env) (r : Nat) : Prop where
+  dbg : E.debug = false
+  r2 : 2 ≤ r
+  split : E.L.splitRadix r = (r, 0)
+  pow : PowOkL E (E.L.bigfloatBits / E.L.limbBits) r
+  cap1 : 1 ≤ E.L.bigfloatBits / E.L.limbBits
+  w1 : 1 ≤ E.L.integralBinaryFactor r
+  w6 : E.L.integralBinaryFactor r ≤ 6
+  wr : r + 1 ≤ 2 ^ E.L.integralBinaryFactor r
+
+theorem normalized_single {m : Nat} (h0 : m ≠ 0) (hB : m < B64) : Normalized [m] :=
+  ⟨fun l hl => by simp at hl; rw [hl]; exact hB, fun l hl => by simp at hl; rw [← hl]; exact h0⟩
+
+theorem fromU64L_ne {m : Nat} (h0 : m ≠ 0) : fromU64L m = [m] := by unfold fromU64L; rw [if_neg h0]
+
+/-- `Bigfloat::pow` of one -/
+theorem bigfloatPow_one {E : Env} {r : Nat} (T : ByteTables E r) (j : Nat) {f : BF}
+    (h : bigfloatPow E (E.L.bigfloatBits / E.L.limbBits) ⟨fromU64L 1, 0⟩ r j = some f) :
+    f.exp = 0 ∧ Normalized f.data ∧ valL f.data = r ^ j ∧ f.data.length ≤ E.L.bigfloatBits / E.L.limbBits ∧
+      f.data ≠ [] := by
+  unfold bigfloatPow at h
+  rw [T.split] at h
+  have hr0 : r ≠ 0 := by have := T.r2; omega
+  simp only [hr0, ne_eq, not_false_eq_true, if_true, not_true_eq_false, if_false] at h
+  obtain ⟨d, hd, rfl⟩ := Option.map_eq_some_iff.mp h
+  rw [fromU64L_ne (by decide : (1 : Nat) ≠ 0)] at hd
+  obtain ⟨a1, _⟩ := powOddL_spec T.pow (x := [1]) (normalized_single (by decide) (by unfold B64; norm_num))
+    (by simp) (by simpa using T.cap1) j
+  obtain ⟨n1, v1, l1, ne1⟩ := a1 d hd
+  exact ⟨rfl, n1, by rw [v1]; simp [valL], l1, ne1⟩
+
+/-- **`byte_comp`**: if it returns (no capacity panic), it returns the estimate rounded according to the exact comparison
+of the digits with `b + h`, i.e. `roundNE` of the value. `RF`: the facts about the estimate (`roundFacts_of_weak`);
+`hX`: `(b + h) / r^sci < r + 1` — the first generated "digit" is at most `r`. -/
+theorem byteComp_spec {E : Env} {F : FTy} {p eb : Nat} (lay : Layout F p eb)
+    (hden : F.C.denormalExponent = 1 - F.C.exponentBias) {r : Nat} (T : ByteTables E r)
+    (integer : List Nat) (fraction : Option (List Nat)) (hbi : ∀ c ∈ integer, c < 256)
+    (hbf : ∀ fr, fraction = some fr → ∀ c ∈ fr, c < 256) (hne : sigBytes integer fraction ≠ [])
+    (hvd : ValidDigits r (sigBytes integer fraction))
+    (fp : ExtendedFloat80) (sci : Int) (hsci : -(2 ^ 20 : Int) < sci ∧ sci < 2 ^ 20) (k q : Nat)
+    (RF : RoundFacts F p fp
+      (powFrac r (sci + 1 - ((sigBytes integer fraction).length : Int)) (ofDigits r (dv r (sigBytes integer fraction)))).1
+      (powFrac r (sci + 1 - ((sigBytes integer fraction).length : Int)) (ofDigits r (dv r (sigBytes integer fraction)))).2
+      k q)
+    (hX : (2 * q + 1) * 2 ^ ((k : Int) - F.C.exponentBias).toNat * r ^ (-sci).toNat <
+      (r + 1) * (r ^ sci.toNat * 2 ^ (-((k : Int) - F.C.exponentBias)).toNat))
+    {res : ExtendedFloat80} (h : byteComp E F r integer fraction fp sci = some res) :
+    0 ≤ res.exp ∧ extendedToFloat F res = roundNE F.fmt
+      (powFrac r (sci + 1 - ((sigBytes integer fraction).length : Int)) (ofDigits r (dv r (sigBytes integer fraction)))).1
+      (powFrac r (sci + 1 - ((sigBytes integer fraction).length : Int)) (ofDigits r (dv r (sigBytes integer fraction)))).2 := by
+  have hp := lay.hp; have hp64 := lay.hp64; have heb := lay.heb
+  have hr2 := T.r2
+  have hr0 : 0 < r := by omega
+  have h20 : (2 : Int) ^ 20 = 1048576 := by norm_num
+  have h30 : (2 : Int) ^ 30 = 1073741824 := by norm_num
+  have hw1 := T.w1; have hw6 := T.w6; have hwr := T.wr
+  have hbiasL : (F.C.exponentBias : Int) = (L F.fmt : Int) + 1 := by
+    rw [lay.bias, L_eq lay]
+    have := lay.hL127
+    omega
+  have hbias0 : 0 ≤ F.C.exponentBias ∧ F.C.exponentBias < 2 ^ 16 := by
+    rw [lay.bias]
+    have heb15 := lay.heb15
+    have : 2 ^ (eb - 1) ≤ 2 ^ 14 := Nat.pow_le_pow_right (by decide) (by omega)
+    have h14 : (2 : Nat) ^ 14 = 16384 := by norm_num
+    have h16 : (2 : Int) ^ 16 = 65536 := by norm_num
+    constructor <;> omega
+  have h16 : (2 : Int) ^ 16 = 65536 := by norm_num
+  rw [byteComp_eq, T.dbg] at h
+  simp only [Bool.false_and, Bool.false_eq_true, if_false] at h
+  rw [RF.bits, bhOf_kq lay hden k q RF.h1 RF.qb RF.fin] at h
+  dsimp only at h
+  have hc1 := T.cap1
+  generalize hcap : E.L.bigfloatBits / E.L.limbBits = cap at *
+  generalize hte : (k : Int) - F.C.exponentBias = te at *
+  have hkb := RF.kb
+  have htb : -(2 ^ 16 : Int) < te ∧ te < 2 ^ 21 := by constructor <;> omega
+  have hm0 : 2 * q + 1 ≠ 0 := by omega
+  have hmB : 2 * q + 1 < B64 := by
+    have : 2 * 2 ^ (p - 1) ≤ 2 ^ 62 := by
+      rw [← Nat.pow_succ']; exact Nat.pow_le_pow_right (by decide) (by omega)
+    have : (2 : Nat) ^ 62 * 2 + 1 < B64 := by unfold B64; norm_num
+    have := RF.qb
+    omega
+  rw [fromU64L_ne hm0] at h
+  obtain ⟨factor, hf, h⟩ := Option.bind_eq_some_iff.mp h
+  obtain ⟨nd, hnd, h⟩ := Option.bind_eq_some_iff.mp h
+  obtain ⟨d1, hd1, h⟩ := Option.bind_eq_some_iff.mp h
+  obtain ⟨nd2, hal, h⟩ := Option.bind_eq_some_iff.mp h
+  obtain ⟨ord, hcb, hres⟩ := Option.map_eq_some_iff.mp h
+  obtain ⟨fe, fn, fv, fl, fne⟩ := bigfloatPow_one T sci.natAbs (by rw [hcap]; exact hf)
+  rw [hcap] at fl
+  have nm := normalized_single hm0 hmB
+  generalize hj : sci.natAbs = j at *
+  -- numerator and denominator
+  have hpair : Normalized nd.1.data ∧ nd.1.data ≠ [] ∧ nd.1.data.length ≤ cap ∧
+      Normalized nd.2.data ∧ nd.2.data ≠ [] ∧ nd.2.data.length ≤ cap ∧
+      -(2 ^ 22 : Int) < nd.1.exp ∧ nd.1.exp < 2 ^ 22 ∧ -(2 ^ 22 : Int) < nd.2.exp ∧ nd.2.exp < 2 ^ 22 ∧
+      ∀ s1 s2 : Nat, (s1 : Int) - s2 = nd.1.exp - nd.2.exp →
+        (valL nd.1.data * 2 ^ s1) * (r ^ sci.toNat * 2 ^ (-te).toNat) =
+          (valL nd.2.data * 2 ^ s2) * ((2 * q + 1) * 2 ^ te.toNat * r ^ (-sci).toNat) := by
+    have h22 : (2 : Int) ^ 22 = 4194304 := by norm_num
+    have h21 : (2 : Int) ^ 21 = 2097152 := by norm_num
+    unfold pairL at hnd
+    by_cases hneg : sci < 0
+    · rw [if_pos hneg] at hnd
+      obtain ⟨d, hd, rfl⟩ := Option.map_eq_some_iff.mp hnd
+      have hd' : smallMulL cap factor.data (2 * q + 1) = some d := hd
+      obtain ⟨a1, _⟩ := smallMulL_full (cap := cap) fn fl hm0 hmB
+      obtain ⟨n1, v1, l1⟩ := a1 d hd'
+      have dne : d ≠ [] := by
+        intro h0
+        have h1 := valL_pos fn fne
+        have h2 := Nat.mul_pos h1 (Nat.pos_of_ne_zero hm0)
+        rw [h0] at v1; simp only [valL] at v1; omega
+      dsimp only
+      rw [fromU64L_ne (by decide : (1 : Nat) ≠ 0), fe]
+      refine ⟨n1, dne, l1, normalized_single (by decide) (by unfold B64; norm_num), by simp, by simp; omega,
+        by omega, by omega, by omega, by omega, ?_⟩
+      intro s1 s2 hs
+      have e1 : sci.toNat = 0 := by omega
+      have e2 : (-sci).toNat = j := by omega
+      rw [v1, fv, e1, e2]
+      simp only [valL, Nat.mul_zero, Nat.add_zero, Nat.pow_zero, Nat.one_mul]
+      have hexp : s1 + (-te).toNat = s2 + te.toNat := by omega
+      calc r ^ j * (2 * q + 1) * 2 ^ s1 * 2 ^ (-te).toNat = r ^ j * (2 * q + 1) * 2 ^ (s1 + (-te).toNat) := by
+            rw [Nat.pow_add]; ring
+        _ = r ^ j * (2 * q + 1) * 2 ^ (s2 + te.toNat) := by rw [hexp]
+        _ = 2 ^ s2 * ((2 * q + 1) * 2 ^ te.toNat * r ^ j) := by rw [Nat.pow_add]; ring
+    · rw [if_neg hneg] at hnd
+      injection hnd with hnd; subst hnd
+      dsimp only
+      rw [fe]
+      refine ⟨nm, by simp, by simp; omega, fn, fne, fl, by omega, by omega, by omega, by omega, ?_⟩
+      intro s1 s2 hs
+      have e1 : sci.toNat = j := by omega
+      have e2 : (-sci).toNat = 0 := by omega
+      rw [fv, e1, e2]
+      simp only [valL, Nat.mul_zero, Nat.add_zero, Nat.pow_zero, Nat.mul_one]
+      have hexp : s1 + (-te).toNat = s2 + te.toNat := by omega
+      calc (2 * q + 1) * 2 ^ s1 * (r ^ j * 2 ^ (-te).toNat) = r ^ j * (2 * q + 1) * 2 ^ (s1 + (-te).toNat) := by
+            rw [Nat.pow_add]; ring
+        _ = r ^ j * (2 * q + 1) * 2 ^ (s2 + te.toNat) := by rw [hexp]
+        _ = r ^ j * 2 ^ s2 * ((2 * q + 1) * 2 ^ te.toNat) := by rw [Nat.pow_add]; ring
+  obtain ⟨pN, pNne, pNl, pD, pDne, pDl, pe1, pe2, pe3, pe4, prel⟩ := hpair
+  have h22 : (2 : Int) ^ 22 = 4194304 := by norm_num
+  -- the normalised denominator
+  obtain ⟨nlz, hnlz, d1e, d1n, d1v, d1l, ds1, t1, hd1s, ht25, ht64⟩ := normDenL_spec hw1 hw6 pD pDne pDl hd1
+  have d1ne : d1.data ≠ [] := by rw [hd1s]; simp
+  -- the alignment
+  obtain ⟨s1, s2, qq, aN, aNv, aD, aDv, aDl, hs⟩ := alignL_spec (num := nd.1) (den := d1) pN pNne pNl d1n d1ne
+    ⟨by omega, by omega⟩ ⟨by omega, by omega⟩ hal
+  -- the divisor is in the range `compare_bytes` needs
+  have hwpow : 2 ^ E.L.integralBinaryFactor r * 2 ^ (64 - E.L.integralBinaryFactor r) = B64 := by
+    unfold B64; rw [← Nat.pow_add]; congr 1; omega
+  have hr64 : r + 1 ≤ 64 := by
+    have : 2 ^ E.L.integralBinaryFactor r ≤ 2 ^ 6 := Nat.pow_le_pow_right (by decide) hw6
+    omega
+  have D : DenOk cap r nd2.2.data := by
+    refine ⟨?_, ⟨List.replicate qq 0 ++ ds1, t1, by rw [aD, hd1s, List.append_assoc], by
+        have : (2 : Nat) ^ 25 = 33554432 := by norm_num
+        omega, ?_⟩, ?_, hr2⟩
+    · rw [aD]
+      refine ⟨limbsOk_append.mpr ⟨fun l hl => by rw [List.eq_of_mem_replicate hl]; exact B64_pos, d1n.1⟩, ?_⟩
+      intro l hl
+      rw [hd1s, ← List.append_assoc, List.getLast?_append] at hl
+      simp at hl
+      rw [← hl]
+      exact d1n.2 t1 (by rw [hd1s]; simp)
+    · calc (r + 1) * (t1 + 1) ≤ 2 ^ E.L.integralBinaryFactor r * 2 ^ (64 - E.L.integralBinaryFactor r) :=
+            Nat.mul_le_mul hwr ht64
+        _ = B64 := hwpow
+    · rw [aD]
+      simp only [List.length_append, List.length_replicate]
+      by_cases hq0 : qq = 0
+      · rw [hq0]; omega
+      · exact aDl hq0
+  -- the ratio
+  have hrel := prel s1 (s2 + nlz) (by rw [d1e] at hs; push_cast; omega)
+  have hXY : valL nd2.1.data * (r ^ sci.toNat * 2 ^ (-te).toNat) =
+      valL nd2.2.data * ((2 * q + 1) * 2 ^ te.toNat * r ^ (-sci).toNat) := by
+    rw [aNv, aDv, d1v]
+    calc valL nd.1.data * 2 ^ s1 * (r ^ sci.toNat * 2 ^ (-te).toNat) =
+          valL nd.2.data * 2 ^ (s2 + nlz) * ((2 * q + 1) * 2 ^ te.toNat * r ^ (-sci).toNat) := hrel
+      _ = _ := by rw [Nat.pow_add]; ring
+  have hYpos : 0 < valL nd2.2.data := (denOk_facts D).1
+  have hApos : 0 < r ^ sci.toNat * 2 ^ (-te).toNat := Nat.mul_pos (Nat.pow_pos hr0) (Nat.two_pow_pos _)
+  have N : NumOk r nd2.2.data nd2.1.data := by
+    refine ⟨aN, ?_⟩
+    apply Nat.lt_of_mul_lt_mul_right (a := r ^ sci.toNat * 2 ^ (-te).toNat)
+    rw [hXY]
+    calc valL nd2.2.data * ((2 * q + 1) * 2 ^ te.toNat * r ^ (-sci).toNat) <
+          valL nd2.2.data * ((r + 1) * (r ^ sci.toNat * 2 ^ (-te).toNat)) := Nat.mul_lt_mul_of_pos_left hX hYpos
+      _ = (r + 1) * valL nd2.2.data * (r ^ sci.toNat * 2 ^ (-te).toNat) := by ring
+  -- the comparison
+  rw [compareBytes_spec D N integer fraction hbi hbf hne] at hcb
+  injection hcb with hcb
+  rw [cmpDigits_spec hr0 hYpos _ _ (dv_lt hvd), dv_length] at hcb
+  rw [cmp_transfer _ r (2 * q + 1) _ k (L F.fmt) _ _ sci te hr0 hYpos (by omega) hXY] at hcb
+  obtain ⟨r1, r2⟩ := RF.round ord
+  rw [← hres]
+  refine ⟨r1, ?_⟩
+  rw [r2, RF.final, ← hcb]
+
 end LexVerif.Proof.Slow
